@@ -583,6 +583,24 @@ func main() {
 		{"wrong-type.crl_urls-not-a-list", j(fmt.Sprintf(`"crl_config":{"work_dir":%q,"crl_urls":"http://x/y.crl"}`, wd)), ""},
 		{"wrong-type.mode-number", j(`"mode":3,` + crlOK), ""},
 	}
+	// the same invalid crl_config / ocsp_config content must also be rejected when the mode does not
+	// use that mechanism (nothing is ignored): repeat the variants under ocsp_only and disabled
+	base := append([]invalid(nil), invs...)
+	for _, iv := range base {
+		if strings.Contains(iv.name, ".top") || strings.Contains(iv.name, "mode") || strings.HasPrefix(iv.name, "work_dir") || strings.Contains(iv.name, "crl_files") || strings.HasPrefix(iv.name, "wrong-type") {
+			continue
+		}
+		for _, m := range []string{"ocsp_only", "disabled"} {
+			nv := invalid{name: iv.name + ".under-mode-" + m}
+			if iv.json != "" {
+				nv.json = strings.Replace(iv.json, `{"verifier":"revocation",`, `{"verifier":"revocation","mode":"`+m+`",`, 1)
+			}
+			if iv.caddyfile != "" {
+				nv.caddyfile = strings.Replace(iv.caddyfile, "revocation {\n", "revocation {\nmode "+m+"\n", 1)
+			}
+			invs = append(invs, nv)
+		}
+	}
 	for ii, iv := range invs {
 		if ii%sn != si {
 			continue
